@@ -173,54 +173,75 @@ func parseThrottle(s string) (a, b int64, ok bool) {
 // statement: negative values, zero counts, empty or invalid patterns,
 // malformed, empty, reversed or overlapping throttles, non-positive throttle
 // bandwidths and damaged documents are rejected.
-func (c Config) Valid() bool {
+func (c Config) Valid() bool { return c.Why() == "" }
+
+// Why names the first reason a document is invalid ("" for a valid one).
+func (c Config) Why() string {
 	if c.Mangle != "" {
-		return false
+		return "damaged-document"
 	}
 	if c.Up < 0 || c.Down < 0 || c.Latency < 0 {
-		return false
+		return "negative-default"
 	}
 	for _, s := range c.Shapes {
 		re := s.regex()
 		if re == "" {
-			return false
+			return "bad-pattern"
 		}
 		if _, err := regexp.Compile(re); err != nil {
-			return false
+			return "bad-pattern"
 		}
 		if s.MaxBW < 0 {
-			return false
+			return "negative-bandwidth"
 		}
 		type iv struct{ a, b int64 }
 		var ivs []iv
 		for _, t := range s.Throttles {
 			if t.BW <= 0 {
-				return false
+				return "throttle-bandwidth"
 			}
 			a, b, ok := parseThrottle(t.Bytes)
 			if !ok {
-				return false
+				return "throttle-bytes"
 			}
 			ivs = append(ivs, iv{a, b})
 		}
 		sort.SliceStable(ivs, func(i, j int) bool { return ivs[i].a < ivs[j].a })
 		for i := 0; i+1 < len(ivs); i++ {
 			if ivs[i].b == -1 || ivs[i].b > ivs[i+1].a {
-				return false
+				return "throttle-overlap"
 			}
 		}
 		for _, h := range s.Halts {
-			if h.Dur < 0 || h.At < 0 || h.N == 0 {
-				return false
+			if h.Dur < 0 || h.At < 0 {
+				return "negative-halt"
+			}
+			if h.N == 0 {
+				return "zero-count"
 			}
 		}
 		for _, cl := range s.Closes {
-			if cl.At < 0 || cl.N == 0 {
-				return false
+			if cl.At < 0 {
+				return "negative-close"
+			}
+			if cl.N == 0 {
+				return "zero-count"
+			}
+		}
+		// -1 is the documented "every time"; any other negative count is a
+		// negative value without a meaning ("negative values ... are rejected")
+		for _, h := range s.Halts {
+			if h.N < -1 {
+				return "negative-count"
+			}
+		}
+		for _, cl := range s.Closes {
+			if cl.N < -1 {
+				return "negative-count"
 			}
 		}
 	}
-	return true
+	return ""
 }
 
 // bucketsBeforeRejection is the number of shapes of an invalid document whose
